@@ -912,6 +912,27 @@ def check_molecule_rebuild(ctx, out: Outcome, inst, case):
             continue
         if not same:
             out.violations.append(Finding("oracle:rebuild_" + name, case, observed=m2.get_hash(), expected=h, detail="Molecule rebuilt from its own dictionary differs / has another hash"))
+    # a molecule DERIVED from this one (pydantic copy with one listed field replaced) is a Molecule too: it must survive the rebuild
+    # from its own dictionary with its own hash — whatever the parent had already computed (masses, hash, repr) when the copy was taken
+    syms = [str(x) for x in inst.symbols]
+    if len(inst.fragments) == 1 and len(set(syms)) >= 2 and inst.__dict__.get("masses_") is None and inst.__dict__.get("mass_numbers_") is None:
+        _ = (inst.masses, inst.get_hash(), repr(inst), inst.get_molecular_formula())
+        i = 0
+        j = next(k for k, x in enumerate(syms) if x != syms[0])
+        s2 = list(syms)
+        s2[i], s2[j] = s2[j], s2[i]  # same atoms, two of them exchanged: total electron count unchanged
+        out.count("rebuild:derived_copy")
+        try:
+            with contextlib.redirect_stdout(io.StringIO()):
+                mc = inst.copy(update={"symbols": np.array(s2)})
+                hc = mc.get_hash()
+                m3 = Molecule(**copy.deepcopy(mc.dict()))
+                m4 = Molecule.parse_raw(mc.json())
+            if not (m3.get_hash() == hc and m4.get_hash() == hc and m3 == mc and [float(x) for x in m3.masses] == [float(x) for x in mc.masses]):
+                out.violations.append(Finding("oracle:rebuild_derived_copy", dict(case, derived={"symbols": s2}), observed={"copy": hc, "kwargs": m3.get_hash(), "json": m4.get_hash(), "masses_copy": [float(x) for x in mc.masses], "masses_rebuilt": [float(x) for x in m3.masses]},
+                                              expected="equal hashes and masses", detail="a copy(update={'symbols': ...}) of the molecule does not survive the rebuild from its own dictionary / json"))
+        except Exception as e:
+            out.violations.append(Finding("oracle:rebuild_derived_copy", dict(case, derived={"symbols": s2}), observed=err_class(e) + ": " + str(e)[:200], detail="a derived copy cannot be rebuilt from its own dictionary"))
 
 
 # ------------------------------------------------------------------------------------------------------
